@@ -276,6 +276,12 @@ class Engine:
         return m(s, env)
 
     # statements ---------------------------------------------------------
+    def x_Break(self, s, env):
+        raise _Break()
+
+    def x_Continue(self, s, env):
+        raise _Continue()
+
     def x_Pass(self, s, env):
         pass
 
